@@ -100,6 +100,20 @@ CHECKS = {
   design_ref="DESIGN.md 3.2, 6 (C11)",
   note="Trusted: TLC, helpers vout / vpa / vio; unquoted results with blanks may arrive split or unsplit.",
   technique="TLA+ reference of substitution values enumerated by TLC; every case replayed on the binary with run counters"),
+ "C14": dict(
+  category="model_checking",
+  text="spec/Script.tla holds a writer of every well-formed script as a line sequence (commands, break, continue, if / else if / "
+       "else / fi, while, for with 0..2 words, done), a recursive-descent Parse, the structured big-step semantics of the property "
+       "(programmed condition answers, loop-variable binding, innermost-loop break / continue) and a one-to-one transcription of "
+       "scripting.rs's recursive run functions with their (continue, break) flags. TLC checks that both produce the same event "
+       "sequence for every script of up to 5 (thorough 6, and 7..8 with one answer per condition) lines and every answer "
+       "assignment; every (script, answers) pair is rendered in both spellings (newline and `; then` / `; do`) with marker and "
+       "condition helpers and run by the real binary; oracle: the helper log (which commands ran in which order with which loop "
+       "variable value, which conditions were evaluated) equals the expected event sequence. Unbalanced variants must be "
+       "diagnosed.",
+  design_ref="DESIGN.md 3.10, 6 (C14)",
+  note="Trusted: TLC, helpers vmk / vcond; answer sequences always end in failure so every while terminates.",
+  technique="TLA+ big-step semantics vs transcription of the interpreter checked by TLC; every bounded script replayed on the binary"),
  "C06": dict(
   category="model_checking",
   text="TLC explores every interleaving of child status changes (with Linux's report coalescing), foreground-wait iterations, "
